@@ -133,6 +133,8 @@ TPt ==
            p == ev.p
        IN  CASE p = "pm.enter"       -> At(t, "pm.enter") /\ conf.useLogger
              [] p = "pm.locked"      -> LockL(t) /\ UNCHANGED conf /\ conf.useLogger
+             [] p = "oth.enter"      -> At(t, "pm.locked")
+             [] p = "mv.enter"       -> At(t, "idle") /\ Op(t) = "move"
              [] p = "oth.locked"     -> LockH(t) /\ UNCHANGED conf /\ (ev.a = 1) = wptr
              [] p = "oth.posting"    -> BranchPost(t) /\ UNCHANGED conf
              [] p = "oth.posted"     -> At(t, "oth.posted")
